@@ -564,8 +564,11 @@ func singleQuoted(s string) string {
 // needsSingleQuoting reports plain scalars that goccy leaves unquoted
 // but that decoders read as something else entirely: the "?" explicit
 // key indicator alone or followed by a space, and the "<<" merge key.
+// goccy's lexer also splits a "<<" off the end of a mapping key and a
+// "..." document end marker off the start of any plain scalar, so those
+// forms are quoted as well.
 func needsSingleQuoting(s string) bool {
-	return s == "?" || strings.HasPrefix(s, "? ") || s == "<<"
+	return s == "?" || strings.HasPrefix(s, "? ") || strings.HasSuffix(s, "<<") || strings.HasPrefix(s, "...")
 }
 
 // quoteScalar returns the pre-quoted rendering of a single-line string
